@@ -3,7 +3,7 @@ import re
 from . import register
 from ..analysis import (return_variants_from, slice_const_values, backslice, comparisons, branch_of, dominated_region, closure_creation, forward_locals,
                         truth_table, table_equals, switch_targets_bool, count_nots, FLIP, NEG, upvar_operand)
-from ..facts import const_int, op_local, op_const, const_val, place_fields
+from ..facts import const_int, op_local, op_const, const_val, place_fields, rvalue_places
 from .common import stdin_paths_body
 
 DOC = {
@@ -58,6 +58,7 @@ def run(ctx):
     r12d(ctx)
     r16(ctx)
     r17(ctx)
+    r17b(ctx)
     r13(ctx)
     r14(ctx)
     r15(ctx)
@@ -123,8 +124,10 @@ def r9(ctx, rule='C09.R9'):
             cb = lib.body(cp) if cp else None
             if cb is None:
                 continue
-            for pc in cb.calls(r'^pattern::Pattern::\w+$'):
-                preds.append((cb, pc))
+            # (the predicate may be applied to each of several names of the directory: one closure further down)
+            for xb in [cb] + [lib.body(x) for x in lib.closures_of(cb.path)]:
+                for pc in xb.calls(r'^pattern::Pattern::\w+$'):
+                    preds.append((xb, pc))
     if not ctx.floor(rule, 'exclude predicates in matches_dir', len(preds), 1, md.where()):
         return
     MATCH = r'regex::Regex::(is_match|is_partial_match)$|^pattern::Pattern::(matches|matches_prefix|matches_partially|matches_path)$'
@@ -422,6 +425,58 @@ def r17(ctx):
               'a path pattern is matched as it is spelled, but the scanned / reported paths have the symbolic links to directories resolved: with `photos -> disk`, '
               '`group photos --exclude "photos/private/**"` excludes nothing (the files are /…/disk/private/…) and `remove --keep-path "photos/originals/**"` protects nothing - '
               'the file the user meant to keep is removed; the input paths (Walk::absolute) and the isolate roots (canonical_root) are resolved, the patterns are not')
+
+
+def r17b(ctx):
+    """... and where the pattern does not START with a literal directory (`*/private/**`, `phot?s/..`, `{photos,pictures}/..`, -i) there is nothing to
+    resolve in the pattern: the selector has to know the other name of the files - the input path as given - and match that as well."""
+    rule = 'C09.R17'
+    lib = ctx.lib
+    ps = None
+    for p_, b in sorted(lib.bodies.items()):
+        if re.search(r'^config::GroupConfig::path_selector$', p_):
+            ps = b
+    if ps is None:
+        ctx.missing(rule, 'config::GroupConfig::path_selector')
+        return
+    # (1) the selector is told the input paths
+    told = [c for c in ps.calls(r'^selector::PathSelector::\w+$') if any('paths' in backslice(ps, [a]).field_names() for a in c.args)]
+    setter = lib.body(told[0].path) if told else None
+    resolves = setter is not None and bool([c for x in [setter] + [lib.body(cp) for cp in lib.closures_of(setter.path)] for c in x.calls(r'path::Path::canonicalize$|^std::fs::canonicalize$|dunce::canonicalize$|config::canonical_root$')])
+    # (2) what it has learnt is used by the three predicates of the walk: a field written by the setter is read on their side
+    def fields_of(x):
+        out = set()
+        for y in [x] + [lib.body(cp) for cp in lib.closures_of(x.path)]:
+            for blk in y.blocks:
+                for st in blk['stmts']:
+                    for pl in rvalue_places(st['rv']) + [st['p']]:
+                        out |= {f for f in place_fields(pl)}
+        return out
+    learnt = (fields_of(setter) - {'base_dir', 'included_names', 'included_paths', 'excluded_paths'}) if setter is not None else set()
+    users = {}
+    for fn in ('matches_full_path', 'matches_dir', 'matches_dir_following_links'):
+        mb = lib.body('selector::PathSelector::' + fn)
+        if mb is None:
+            continue
+        seen, todo, got = set(), [mb], set()
+        while todo:
+            x = todo.pop()
+            if x.path in seen:
+                continue
+            seen.add(x.path)
+            got |= fields_of(x)
+            for y in [x] + [lib.body(cp) for cp in lib.closures_of(x.path)]:
+                for k in y.calls(r'^selector::PathSelector::\w+$'):
+                    hb = lib.body(k.path)
+                    if hb is not None:
+                        todo.append(hb)
+        users[fn] = bool(got & learnt)
+    ok = bool(told) and resolves and bool(learnt) and bool(users) and all(users.values())
+    ctx.check(ok, rule, ps.path + '|input-path-aliases', (told[0].where() if told else ps.where()),
+              'the selector is told the input paths (%s), resolves them, and %s match the path below the input path as given as well' % (told[0].path.rsplit('::', 1)[-1] if told else '-', ', '.join(sorted(users))),
+              'only a pattern that STARTS with a literal, exactly-cased directory is brought into the resolved form of the scanned paths: with `photos -> ../disk`, `group photos --exclude "*/private/**"`, '
+              '`"phot?s/private/**"`, `"{photos,pictures}/private/**"` and `-i --exclude "photos/PRIVATE/**"` exclude nothing and `--path "*/private/*"` selects nothing, because the files are matched as '
+              '<T>/disk/private/.. only; the selector does not know that they are also <cwd>/photos/private/..')
 
 
 def r12c(ctx):
@@ -862,15 +917,29 @@ def r3(ctx):
                 tt = truth_table(cb, {k: v for k, v in atoms.items() if k in need})
                 ok, why = table_equals(tt, lambda a: (a['included_paths.is_empty'] or a['included_paths.any']) and a['excluded_paths.all'])
                 ctx.check(ok, rule, md.path + '|formula', cb.where(), '(paths empty | any partial match) & no exclude prefix-matches  [%s]' % why, 'directory admission formula differs: %s' % why)
-            leaf_checks(ctx, rule, lib, cb, {'included_paths': ('matches_partially', 0), 'excluded_paths': ('matches_prefix', 1)})
+            leaf_checks(ctx, rule, lib, cb, {'included_paths': ('matches_partially', 0), 'excluded_paths': ('matches_subtree', 1)})
 
 
 def leaf_checks(ctx, rule, lib, cb, expect):
     """the closures given to any()/all(): which Pattern method, negated or not"""
     for cp in lib.closures_of(cb.path, recursive=False):
         lb = lib.body(cp)
-        pm = lb.calls(r'pattern::Pattern::(matches|matches_partially|matches_prefix|matches_fully)$')
+        PM = r'pattern::Pattern::(matches|matches_partially|matches_prefix|matches_fully|matches_subtree)$'
+        pm = lb.calls(PM)
+        over_names = None
         if not pm:
+            # the pattern is tried on each of several names of the path: `|p| names.iter().any(|n| p.matches(n))` / `.all(|n| !p.matches(n))`
+            for cp2 in lib.closures_of(cp, recursive=False):
+                lb2 = lib.body(cp2)
+                pm2 = lb2.calls(PM)
+                cr2 = closure_creation(lib, cp2)
+                if not pm2 or not cr2:
+                    continue
+                fl2 = forward_locals(lb, cr2[2]['p'][0])
+                comb = [c for c in lb.calls(r'::any$|::all$') if op_local(c.args[1]) in fl2]
+                if comb:
+                    over_names = (comb[0].path.rsplit('::', 1)[-1], count_nots(lb2, backslice(lb2, [0])) % 2, pm2)
+        if not pm and over_names is None:
             continue
         cr = closure_creation(lib, cp)
         which = None
@@ -885,8 +954,18 @@ def leaf_checks(ctx, rule, lib, cb, expect):
         if which is None:
             continue
         meth, nots = expect[which]
-        got = pm[0].path.rsplit('::', 1)[-1]
         n = count_nots(lb, backslice(lb, [0]))
+        if over_names is not None:
+            comb, inner, pm = over_names
+            # "some name matches" = any(match); "no name matches" = all(!match): anything else (all(match), any(!match)) is neither
+            if (comb, inner) == ('any', 0):
+                pass
+            elif (comb, inner) == ('all', 1):
+                n += 1
+            else:
+                ctx.violation(rule, '%s|%s' % (cp, which), pm[0].where(), '%s: the names of the path are combined with %s(%smatch): neither "some name matches" nor "no name matches"' % (which, comb, '!' if inner else ''))
+                continue
+        got = pm[0].path.rsplit('::', 1)[-1]
         ctx.check(got == meth and n % 2 == nots, rule, '%s|%s' % (cp, which), pm[0].where(), '%s: %sPattern::%s' % (which, '!' if nots else '', meth),
                   '%s uses %sPattern::%s (expected %s%s)' % (which, '!' if n % 2 else '', got, '!' if nots else '', meth))
 
